@@ -739,6 +739,7 @@ func runSorted(thread *starlark.Thread, items []item, seq []int, keyed, reverse 
 		return nil, "err"
 	}
 	l := v.(*starlark.List)
+	out = []int{}
 	used := make([]bool, len(seq))
 	for i := 0; i < l.Len(); i++ {
 		e := l.Index(i)
